@@ -123,6 +123,29 @@ fn main() {
 }
 
 
+/// Allocation requests above 1 GiB fail at once, whatever the state of the heap. A decoder that
+/// pre-allocates from a length field read off the wire then aborts deterministically (`handle_alloc_error`)
+/// instead of succeeding or failing with the address space the other worker threads happen to hold;
+/// nothing in the harness or in pallas legitimately asks for that much in one piece.
+struct CappedAlloc;
+const ALLOC_CAP: usize = 1 << 30;
+unsafe impl std::alloc::GlobalAlloc for CappedAlloc {
+    unsafe fn alloc(&self, l: std::alloc::Layout) -> *mut u8 {
+        if l.size() > ALLOC_CAP { std::ptr::null_mut() } else { std::alloc::System.alloc(l) }
+    }
+    unsafe fn dealloc(&self, p: *mut u8, l: std::alloc::Layout) {
+        std::alloc::System.dealloc(p, l)
+    }
+    unsafe fn alloc_zeroed(&self, l: std::alloc::Layout) -> *mut u8 {
+        if l.size() > ALLOC_CAP { std::ptr::null_mut() } else { std::alloc::System.alloc_zeroed(l) }
+    }
+    unsafe fn realloc(&self, p: *mut u8, l: std::alloc::Layout, n: usize) -> *mut u8 {
+        if n > ALLOC_CAP { std::ptr::null_mut() } else { std::alloc::System.realloc(p, l, n) }
+    }
+}
+#[global_allocator]
+static GLOBAL: CappedAlloc = CappedAlloc;
+
 fn limit_memory() {
     // giant allocations from garbage lengths must fail fast (abort) instead of thrashing
     let lim = libc::rlimit { rlim_cur: 12 << 30, rlim_max: 12 << 30 };
